@@ -1828,6 +1828,130 @@ def corpus_cases(ctx, L):
                      "HRNP DATA packet, error inside the HDAP payload: accepted (checksum_correct)", expected="checksum_correct false or a decode error", actual="checksum_correct true")
 
 
+# ------------------------------------------------------------------------------------------------
+# history / object-identity probes (harness/histories.py): entry points of the integrity-protected PDUs, described once
+def ENTRY_POINTS():
+    import random as _random
+
+    import histories as H
+
+    L = lib()
+
+    def view(q):
+        b = call(q.as_bits) if hasattr(q, "as_bits") else (call(q.as_bytes) if hasattr(q, "as_bytes") else None)
+        return {"serialised": H.canon(b), "fields": H.canon(q)}
+
+    bits_ser = lambda o: o.as_bits()  # noqa: E731
+    eps = []
+
+    # ---- slot type / EMB / short LC / PI header / rate blocks: constructor arguments as the caller gives them
+    def slot_args(rng):
+        return (rng.randrange(16), rng.choice(list(L.DataTypes)[:11]))
+
+    def emb_args(rng):
+        return (rng.randrange(16), rng.randrange(2), rng.choice(list(L.LCSS)))
+
+    def slc_args(rng):
+        if rng.random() < 0.2:
+            return (L.SLCOs.NullMessage,)
+        ids = list(L.ActivityID)
+        return (L.SLCOs.ActivityUpdate, 0, rng.choice(ids), rng.choice(ids), int2ba(rng.getrandbits(8), length=8), int2ba(rng.getrandbits(8), length=8))
+
+    def pi_args(rng):
+        return (bytes(rng.getrandbits(8) for _ in range(10)),)
+
+    def words(new, args):
+        """(bits,) of a library-serialised PDU, a quarter of them with one inverted bit"""
+        def make(rng):
+            b = bitarray(new(*args(rng)).as_bits())
+            if rng.random() < 0.25:
+                b.invert(rng.randrange(len(b)))
+            return (b,)
+        return make
+
+    for name, cls, args in (("slot", L.SlotType, slot_args), ("emb", L.EmbeddedSignalling, emb_args), ("slc", L.ShortLinkControl, slc_args), ("pi", L.PIHeader, pi_args)):
+        eps.append(H.EP(f"{name}.build", cls, args, kind="build", serialise=bits_ser, canon=view, group=name))
+        eps.append(H.EP(f"{name}.from_bits", cls.from_bits, words(cls, args), kind="parse", serialise=bits_ser, canon=view, group=name, domain="bits"))
+
+    for kind, (cls, types, n) in L.rates.items():
+        for last in (False, True):
+            t = types.ConfirmedLastBlock if last else types.Confirmed
+            tag = f"{kind}{'-last' if last else ''}"
+
+            def rate_args(rng, t=t, last=last):
+                data = bytes(rng.getrandbits(8) for _ in range(t.value)) if rng.random() < 0.85 else bytes(t.value)
+                if last:
+                    return (data, t, rng.choice([0, 127, rng.randrange(128)]), 0, rng.choice([rng.getrandbits(32) or 1, 1, 0xFFFFFFFF]))
+                return (data, t, rng.choice([0, 127, rng.randrange(128)]))
+
+            def typed(bits, cls=cls, t=t):
+                return cls.from_bits_typed(bits, t)
+
+            eps.append(H.EP(f"{tag}.build", cls, rate_args, kind="build", serialise=bits_ser, canon=view, group=kind))
+            eps.append(H.EP(f"{tag}.from_bits_typed", typed, words(cls, rate_args), kind="parse", serialise=bits_ser, canon=view, group=kind, domain=f"bits{n}"))
+
+    # ---- the two block codes behind slot type / EMB (arrays handed out by generate must be the caller's own)
+    for cname, code, k, n in (("golay2087", L.Golay2087, 8, 20), ("qr1676", L.QuadraticResidue1676, 7, 16)):
+        def data_bits(rng, k=k):
+            return (int2ba(rng.getrandbits(k), length=k),)
+
+        def code_word(rng, code=code, k=k, n=n):
+            w = call(code.generate, int2ba(rng.getrandbits(k), length=k))
+            b = bitarray([int(x) for x in w.tolist()]) if not is_err(w) else bitarray(n)
+            if rng.random() < 0.3:
+                b.invert(rng.randrange(len(b)))
+            return (b,)
+
+        eps.append(H.EP(f"{cname}.generate", code.generate, data_bits, kind="encode", group=cname, observe=H.class_state(code)))
+        eps.append(H.EP(f"{cname}.check", code.check, code_word, kind="check", group=cname))
+
+    # ---- data header: library-made valid words (the constructor is from_bits)
+    def dh_word(rng):
+        o = CrcPdu(None, L, "dh").make(_random.Random(rng.getrandbits(40)), rng.randrange(35))
+        b = bitarray(o.as_bits()) if not is_err(o) else bitarray(96)
+        if rng.random() < 0.25:
+            b.invert(rng.randrange(len(b)))
+        return (b,)
+
+    eps.append(H.EP("dh.from_bits", L.DataHeader.from_bits, dh_word, kind="parse", serialise=bits_ser, canon=view, group="dh", domain="bits", draws=2))
+
+    # ---- HRNP: packets with an HDAP payload OBJECT, with payload octets, without payload
+    payloads = [bytes.fromhex(h)[12:] for h in HRNP_CORPUS if len(h) > 24]
+
+    def hrnp_args(rng):
+        r = rng.random()
+        if r < 0.2:
+            return (None, rng.choice([o for o in L.HRNPOpcodes if o != L.HRNPOpcodes.DATA]), rng.randrange(256), rng.randrange(256), rng.randrange(256), rng.randrange(65536))
+        pl = rng.choice(payloads)
+        data = pl
+        if r < 0.75:
+            o = call(L.HDAP.from_bytes, pl)
+            data = pl if (is_err(o) or o is None) else o
+        return (data, L.HRNPOpcodes.DATA, rng.randrange(256), rng.randrange(256), rng.choice([0, 255, rng.randrange(256)]), rng.choice([0, 65535, rng.randrange(65536)]))
+
+    def hrnp_new(data, opcode, source, destination, block_number, packet_number):
+        return L.HRNP(data=data, opcode=opcode, source=source, destination=destination, block_number=block_number, packet_number=packet_number)
+
+    def hrnp_wire(rng):
+        b = bytes.fromhex(rng.choice(HRNP_CORPUS)) if rng.random() < 0.5 else hrnp_new(*hrnp_args(rng)).as_bytes()
+        if rng.random() < 0.2:
+            b = flip_bit(b, rng.choice([i for i in range(len(b) * 8) if not 64 <= i < 80]))
+        return (b,)
+
+    def hrnp_view(q):
+        b = call(q.as_bytes)
+        back = call(L.HRNP.from_bytes, b) if not is_err(b) else b
+        return {"as_bytes": H.canon(b), "parses back with checksum_correct": back if is_err(back) else bool(back.checksum_correct), "fields": H.canon(q)}
+
+    def hrnp_ser(o):
+        b = o.as_bytes()
+        return (b, L.HRNP.from_bytes(b).checksum_correct)
+
+    eps.append(H.EP("hrnp.build", hrnp_new, hrnp_args, kind="build", serialise=hrnp_ser, canon=hrnp_view, group="hrnp", draws=3))
+    eps.append(H.EP("hrnp.from_bytes", L.HRNP.from_bytes, hrnp_wire, kind="parse", serialise=hrnp_ser, canon=hrnp_view, group="hrnp", draws=2))
+    return eps
+
+
 def hrnp_length_witness(ctx, L):
     """repaired defect: one inverted bit of the packet-length field selected an octet range whose checksum matched"""
     sent, bad = (bytes.fromhex(h) for h in HRNP_LENGTH_WITNESS)
@@ -2167,6 +2291,9 @@ def run(ctx):
         CrcPdu(ctx, L, kind, last=False).cross_part_run(nb(ctx, 2, 5), 1)
         CrcPdu(ctx, L, kind, last=True).cross_part_run(nb(ctx, 2, 5), 1)
     hrnp_cases(ctx, L)
+    import histories
+
+    histories.run(ctx, ENTRY_POINTS)
     ctx.exhaustive = ctx.thorough()
 
 
@@ -2463,6 +2590,10 @@ def replay(obj):
     if not inp:
         print(json.dumps(obj.get("no_longer_checks") or obj.get("correspondence_differences"), indent=1)[:4000])
         return 1
+    if str(f.get("kind", "")).startswith("history:"):
+        import histories
+
+        return histories.replay(inp, ENTRY_POINTS)
     L = lib()
     kind = inp.get("pdu")
     still = 1
